@@ -94,7 +94,7 @@ func (fd *field) shrink(h *pairHit, scale float64) *pairHit {
 	best := h
 	p, q := cp(h.p), cp(h.q)
 	for it := 0; it < 48; it++ {
-		if dist(p, q) < 1e-10*scale {
+		if dist(p, q) < 1e-8*scale {
 			break
 		}
 		m := make([]float64, fd.dim)
